@@ -135,6 +135,10 @@ fn replay(cfg: &Cfg, rep: &mut Report, v: &serde_json::Value) {
 fn main() {
     install_panic_hook();
     let cfg = parse_args();
+    // some shards run with a logger at trace level: log statements must be free of side effects
+    if cfg.flag("trace_log") {
+        install_trace_logger();
+    }
     let cfg2 = cfg.clone();
     // big stack: recursive library code on deep inputs must not overflow the harness thread
     let handle = std::thread::Builder::new()
@@ -148,7 +152,11 @@ fn main() {
             rep
         })
         .expect("spawn main worker");
-    let rep = handle.join().expect("worker joined");
+    let mut rep = handle.join().expect("worker joined");
+    if cfg.flag("trace_log") {
+        rep.count("log_records_formatted_at_trace_level", LOGGED_RECORDS.load(std::sync::atomic::Ordering::Relaxed));
+        rep.count("shards_with_trace_logger", 1);
+    }
     let out = serde_json::to_string(&rep.to_json(&cfg)).unwrap();
     match &cfg.out {
         Some(p) => std::fs::write(p, out).expect("write report"),
